@@ -2,11 +2,11 @@
 # altrepo.sh : (re)create a scratch worktree of /repo at its HEAD under /tmp/seed/alt and print its path.
 # Seeded changes and mutations are applied THERE and checked with `VERIF_REPO=<path> ./vcheck ...`,
 # so /repo, /verif/evidence and /verif/replays are never touched by tooling runs.
-alt=/tmp/seed/alt
+alt="${VERIF_ALT:-/tmp/seed/alt}"
 head="$(git -C /repo rev-parse HEAD)"
 if [ -d "$alt/.git" ] || [ -f "$alt/.git" ]; then
   git -C "$alt" checkout -q --detach "$head" 2>/dev/null && git -C "$alt" reset -q --hard "$head" && git -C "$alt" clean -qfd
 else
-  mkdir -p /tmp/seed && git -C /repo worktree prune && git -C /repo worktree add -q --detach "$alt" "$head"
+  mkdir -p "$(dirname "$alt")" && git -C /repo worktree prune && git -C /repo worktree add -q --detach "$alt" "$head"
 fi
 echo "$alt"
